@@ -178,10 +178,19 @@ def gen_restart(rng):
     sched = simworld.random_sched(rng, 0)
     sched['poison'] = rng.random() < 0.5
     sched['glob_shuffle'] = rng.random() < 0.5
-    return dict(kind='restart', P=max(g1[0] * g1[1], g2[0] * g2[1]), ckw=ckw, g1=g1, g2=g2, writes=writes,
-                want_layout=rng.choice(['flux_surface', 'v_parallel', 'poloidal', None]),
-                explicit=rng.choice([None, None, rng.choice(times)]), save_mem=rng.random() < 0.5,
-                sched=sched)
+    c = dict(kind='restart', P=max(g1[0] * g1[1], g2[0] * g2[1]), ckw=ckw, g1=g1, g2=g2, writes=writes,
+             want_layout=rng.choice(['flux_surface', 'v_parallel', 'poloidal', None]),
+             explicit=rng.choice([None, None, rng.choice(times)]), save_mem=rng.random() < 0.5,
+             sched=sched, nofiles=False, plot=False)
+    r = rng.random()
+    if r < 0.12:
+        # a folder holding only the parameter file: the restart must initialise at t = 0
+        c.update(nofiles=True, writes=[], explicit=None,
+                 want_layout=rng.choice(['flux_surface', 'v_parallel', 'poloidal']))
+    elif r < 0.27:
+        c.update(plot=True, draw=rng.randrange(g2[0] * g2[1] + 1))
+        c['P'] = max(c['P'], g2[0] * g2[1] + 1)
+    return c
 
 
 def run_restart(case, tape):
@@ -195,7 +204,7 @@ def run_restart(case, tape):
 
         def writer(comm, rank):
             from pygyro.utilities.savingTools import setupSave
-            f, constants = phys.setup_f(comm, ckw, case['writes'][0]['layout'])
+            f, constants = phys.setup_f(comm, ckw, case['writes'][0]['layout'] if case['writes'] else 'v_parallel')
             setupSave(constants, folder, comm, 0)
             # the directory is created by the root; nobody may write before it exists
             comm.Barrier()
@@ -208,17 +217,33 @@ def run_restart(case, tape):
             return True
         with phys.force_procs({P1: case['g1']}):
             res = M.run(P1, case['sched'], writer)
-        if res['status'] == 'ok':
+        if res['status'] == 'ok' and case.get('nofiles'):
+            def reader0(comm, rank):
+                from pygyro.initialisation.setups import setupFromFile
+                f, constants, t = setupFromFile(folder, comm=comm, layout=case['want_layout'],
+                                                allocateSaveMemory=case['save_mem'])
+                if t != 0 or f.currentLayout != case['want_layout']:
+                    raise OracleFail('restart-time', dict(got=int(t), want=0, layout=f.currentLayout))
+                g, _ = phys.setup_f(comm, ckw, case['want_layout'])
+                if not cm.bits_equal(f.getAllData(), g.getAllData()):
+                    raise OracleFail('restart-field', dict(rank=rank, why='initialisation from a folder without checkpoints'))
+                return True
+            with phys.force_procs({P2: case['g2']}):
+                M.run(P2, case['sched'], reader0)
+        elif res['status'] == 'ok':
             final = {}
             for i, wr in enumerate(case['writes']):
                 final[wr['t']] = i
             tmax = max(final)
             tsel = tmax if case['explicit'] is None else case['explicit']
             isel = final[tsel]
+            plot = case.get('plot')
 
             def reader(comm, rank):
                 from pygyro.initialisation.setups import setupFromFile
                 kw = dict(comm=comm, allocateSaveMemory=case['save_mem'])
+                if plot:
+                    kw.update(plotThread=True, drawRank=case['draw'])
                 if case['want_layout'] is not None:
                     kw['layout'] = case['want_layout']
                 if case['explicit'] is not None:
@@ -230,6 +255,10 @@ def run_restart(case, tape):
                 want_lay = case['want_layout'] or case['writes'][isel]['layout']
                 if f.currentLayout != want_lay:
                     raise OracleFail('restart-layout', dict(got=f.currentLayout, want=want_lay))
+                if plot and rank == case['draw']:
+                    if f.getAllData().size != 0:
+                        raise OracleFail('plot-rank-not-empty', dict(size=int(f.getAllData().size)))
+                    return True
                 G = cm.global_array(npts, 'float64', salt=isel)
                 want = cm.local(G, f.getLayout(want_lay))
                 if not cm.bits_equal(f.getAllData(), want):
@@ -248,11 +277,15 @@ def run_restart(case, tape):
                     raise OracleFail('latest-checkpoint', dict(rank=rank, want_time=int(tmax), times=sorted(final)))
                 return True
             with phys.force_procs({P2: case['g2']}):
-                M.run(P2, case['sched'], reader)
+                M.run(P2 + (1 if plot else 0), case['sched'], reader)
     probes = {'kind_restart': 1}
+    if case.get('nofiles'):
+        probes['restart_folder_without_checkpoints'] = 1
+    if case.get('plot'):
+        probes['restart_with_plot_only_rank'] = 1
     if case['g1'] != case['g2']:
         probes['restart_on_different_grid'] = 1
-    if max(w['t'] for w in case['writes']) >= 1000000:
+    if case['writes'] and max(w['t'] for w in case['writes']) >= 1000000:
         probes['time_7plus_digits'] = 1
     if case['explicit'] is not None:
         probes['explicit_timepoint'] = 1
@@ -388,7 +421,8 @@ def gen_driver(rng, tier):
     sched['poison'] = rng.random() < 0.5
     sched['glob_shuffle'] = rng.random() < 0.3
     return dict(kind='driver', P=max(g1[0] * g1[1], g2[0] * g2[1]), ckw=ckw, N=N, M=Mm, save=s, g1=g1, g2=g2,
-                stop=stop, budget=rng.randint(150, 1500), abort_frac=rng.random(), sched=sched)
+                stop=stop, budget=rng.randint(150, 1500), abort_frac=rng.random(), sched=sched,
+                nofolder=(stop != 'abort' and rng.random() < 0.2))
 
 
 def _write_constants(path, ckw):
@@ -446,14 +480,19 @@ def run_driver(case, tape):
         _write_constants(cfile, ckw)
         A = os.path.join(base, 'unsplit')
         B = os.path.join(base, 'split')
+        fB = ['-f', B]
+        if case.get('nofolder'):
+            # first leg without -f: the root chooses simulation_<n> in the cwd and broadcasts it
+            B = os.path.join(base, 'simulation_0')
+            fB = []
         # unsplit reference run on the first grid, never aborted, unlimited budget
         r = _driver_world(M, P1, case['g1'], quiet, base, [tEnd, big, '-c', cfile, '-f', A, '-s', s])
         if r['status'] == 'ok':
             # first leg
             if case['stop'] == 'tEnd':
-                r1 = _driver_world(M, P1, case['g1'], quiet, base, [N * dt, big, '-c', cfile, '-f', B, '-s', s])
+                r1 = _driver_world(M, P1, case['g1'], quiet, base, [N * dt, big, '-c', cfile, '-s', s] + fB)
             elif case['stop'] == 'budget':
-                r1 = _driver_world(M, P1, case['g1'], quiet, base, [tEnd, case['budget'], '-c', cfile, '-f', B, '-s', s])
+                r1 = _driver_world(M, P1, case['g1'], quiet, base, [tEnd, case['budget'], '-c', cfile, '-s', s] + fB)
             else:
                 sch = dict(case['sched'])
                 sch['abort_at'] = max(1, int(case['abort_frac'] * r['events']))
@@ -493,6 +532,8 @@ def run_driver(case, tape):
                     raise OracleFail('restart-diverged', dict(name=name, relerr=e, N=N, M=Mm, save=s,
                                                               stop=case['stop'], after_leg1=info['times_after_leg1']))
             probes = {'kind_driver': 1, 'stop_' + case['stop']: 1, 'save_interval_%d' % s: 1}
+            if case.get('nofolder'):
+                probes['driver_without_folder_argument'] = 1
             t1 = info['times_after_leg1']
             resumed = bool(t1) and max(t1) > 0 and max(t1) < tEnd
             if resumed:
